@@ -64,7 +64,7 @@ func (b *Bundle) NameFeature(class, role string) {
 	}
 }
 
-var CollisionKinds = []string{"exact", "case", "several", "generatedName", "oaigenTaken", "oaigen1Taken", "paramsBodyTaken", "twoImportsSameName", "caseTwinsInline", "prefixNames", "anonPointerNameTaken", "anonPointerSymbolsKey"}
+var CollisionKinds = []string{"exact", "case", "several", "generatedName", "oaigenTaken", "oaigen1Taken", "paramsBodyTaken", "twoImportsSameName", "caseTwinsInline", "prefixNames", "anonPointerNameTaken", "anonPointerSymbolsKey", "opKeyTwins", "opKeyTwinsWithID", "dupOperationIds"}
 
 // Collision plants a name collision pattern. Imported definitions that collide are $ref-free.
 func (b *Bundle) Collision(kind string) {
@@ -122,6 +122,38 @@ func (b *Bundle) Collision(kind string) {
 		// full flattening derives the same name for both
 		for _, n := range []string{"Twin" + k, "twin" + k} {
 			use(b.Def(n, jx.Obj{"type": "object", "description": b.lbl("tw"), "properties": jx.Obj{"meta": b.Obj(), "list": jx.Obj{"type": "array", "items": b.Obj()}}}))
+		}
+	case "opKeyTwins", "opKeyTwinsWithID":
+		// operations without an id are named after method and path; these paths differ only in
+		// characters that the name mangler drops, so the generated operation names coincide
+		method := Pick(b.rng, MethodsAll)
+		paths := []string{"/tw" + k + "/x-y", "/tw" + k + "/x_y", "/tw" + k + "/x/y", "/tw" + k + "/x.y"}
+		n := 2 + b.rng.IntN(3)
+		for i, p := range paths[:n] {
+			op := b.Op(p, method, false)
+			if kind == "opKeyTwinsWithID" && i == 0 {
+				// an explicit id equal to the name generated for the others
+				op["operationId"] = strings.ToUpper(method[:1]) + method[1:] + "Tw" + k + "XY"
+			}
+			body := b.Obj()
+			body["description"] = b.lbl("twin-body")
+			jx.AsObj(body["properties"])["twin"+strconv.Itoa(i)] = b.Obj()
+			op["parameters"] = jx.Arr{jx.Obj{"name": "body", "in": "body", "schema": body}}
+			resp := b.Obj()
+			jx.AsObj(resp["properties"])["r"+strconv.Itoa(i)] = jx.Obj{"type": "array", "items": b.Obj()}
+			jx.AsObj(op["responses"])["200"] = jx.Obj{"description": b.lbl("tw"), "schema": resp}
+		}
+	case "dupOperationIds":
+		// the same explicit id on several operations (same method, same path, neither): each still owns inline schemas
+		id := "dupOp" + k
+		p1, p2 := "/dup"+k+"/a", "/dup"+k+"/b"
+		for i, mp := range [][2]string{{"get", p1}, {"get", p2}, {"post", p1}, {"put", "/dup" + k + "/c"}} {
+			op := b.Op(mp[1], mp[0], false)
+			op["operationId"] = id
+			body := b.Obj()
+			jx.AsObj(body["properties"])["dup"+strconv.Itoa(i)] = b.Obj()
+			op["parameters"] = jx.Arr{jx.Obj{"name": "body", "in": "body", "schema": body}}
+			jx.AsObj(op["responses"])["200"] = jx.Obj{"description": b.lbl("dup"), "schema": jx.Obj{"type": "array", "items": b.Obj()}}
 		}
 	case "prefixNames":
 		// a definition name that is a proper prefix of another one; the longer-named one is the only referrer of a chain
